@@ -64,6 +64,16 @@ def run_session(sess, wdir, idx):
     out["ops1"] = {t: proj.strip(proj.proj_tensor(u)["root"]) for t, u in used.items()}
     files = {}
     try:
+        if sess.get("dirty"):
+            # an earlier session of another kind (a projection loop: it also fills the rank-matching registers), finished (1) or abandoned without endCollect (2)
+            from fibertree import Fiber
+            Metrics.beginCollect(prefix + "d")
+            f = Fiber([1, 2, 4], [1, 2, 3])
+            f.getRankAttrs().setId("W")
+            for _ in f.project(trans_fn=lambda c: c + 1, rank_id="Q"):
+                pass
+            if sess["dirty"] == 1:
+                Metrics.endCollect()
         if sess["collect"]:
             Metrics.beginCollect(prefix)
             out["state_begin"] = metrics_state()
